@@ -258,9 +258,12 @@ def handlers(rng, te, cfg):
             out.append((vec, e1.enc_thumb(0xE000 | (((stub - (vec + 4)) >> 1) & 0x7FF)) + b'\x00\xbf'))
             body = b''
             if rng.random() < 0.6:
-                k = rng.randrange(5)
+                k = rng.randrange(8)
                 w, is32 = ((enc('POP_T1', P=0, r=mask_lo(rng, 1)), False), (enc('LDM_T2', W=0, n=6, P=0, M=0, r=mask_lo(rng)), True), (enc('CLREX_T1'), True),
-                           (enc('SEL_T1', n=lo(rng), d=lo(rng), m=lo(rng)), True), (enc('PUSH_T1', M=0, r=mask_lo(rng, 1)), False))[k]
+                           (enc('SEL_T1', n=lo(rng), d=lo(rng), m=lo(rng)), True), (enc('PUSH_T1', M=0, r=mask_lo(rng, 1)), False),
+                           # 16-bit ALU forms: whether they set the flags is decided by the IT position the handler runs with (none: the entry cleared it)
+                           (enc('ADD_imm_T2', d=lo(rng), i=rng.getrandbits(8)), False), (enc('MOV_imm_T1', d=lo(rng), i=rng.getrandbits(8)), False),
+                           (enc('ADD_imm_T2', d=lo(rng), i=1), False))[k]
                 body += e1.enc_thumb(w, is32)
             body += e1.enc_thumb(0xF3DE8F00 | off, True)
             out.append((stub, body))
@@ -270,7 +273,7 @@ def handlers(rng, te, cfg):
 
 
 INJECT = ('take_physical_irq_exception', 'take_physical_fiq_exception', 'send_event_local')
-SCENARIOS = ('mix', 'mix', 'rwr', 'rwr', 'rwr', 'residue', 'monitor', 'trap', 'interwork', 'return')
+SCENARIOS = ('mix', 'mix', 'rwr', 'rwr', 'rwr', 'residue', 'monitor', 'trap', 'interwork', 'return', 'embedder', 'embedder', 'notimpl')
 
 
 class Asm:
@@ -309,6 +312,36 @@ class Asm:
                 return [(enc('MOV_reg_A1', S=0, d=d, m=rng.choice((13, 14, 8, 12))), None, None)]
             return [(enc('MOV_reg_T1', D=0, d=d, m=rng.choice((13, 14, 8, 12))), False, None)]
         raise KeyError(view)
+
+    def translation_op(self):
+        """an embedder write that changes how the data window is translated / protected"""
+        rng = self.rng
+        if self.cfg.get('memory_system_architecture', 'PMSA') == 'PMSA':
+            return rng.choice((['xor', 'dracrs[1]', 3 << 8], ['xor', 'dracrs[1]', 2 << 8], ['xor', 'dracrs[1]', 1 << 8], ['toggle', 'drsrs[1]', 0], ['toggle', 'sctlr', 0],
+                               ['xor', 'dracrs[1]', 7 << 8]))
+        return rng.choice((['xor', 'dacr', 1], ['xor', 'dacr', 3], ['toggle', 'sctlr', 0], ['xor', 'fcseidr', 1 << 25], ['xor', 'dacr', rng.choice((1, 2, 3)) << (2 * rng.randrange(16))],
+                           ['toggle', 'sctlr', 29]))
+
+    def embedder_op(self):
+        """something the embedder does through the Python API between two instructions: swaps the register file for a deep copy of itself, delivers an
+        asynchronous abort, or writes a system register (the markers ['toggle', key, bit] / ['xor', key, mask] are resolved against the case's state)"""
+        rng = self.rng
+        r = rng.random()
+        if r < 0.2:
+            return 'swap_registers'
+        if r < 0.3:
+            return 'take_data_abort'
+        cands = [['toggle', 'sctlr', 13], ['toggle', 'sctlr', 13], ['toggle', 'sctlr', 1], ['toggle', 'sctlr', 25], ['toggle', 'sctlr', 30], ['toggle', 'sctlr', 27],
+                 ['xor', 'vbar', rng.choice((0x80, 0x40, 0x20, 0x8000))], ['xor', 'vbar', 0x80], ['xor', 'cpacr', rng.getrandbits(28)], ['toggle', 'sctlr', 0]]
+        if self.cfg.get('memory_system_architecture', 'PMSA') == 'PMSA':
+            cands += [['xor', 'dracrs[1]', rng.choice((1, 2, 3, 4, 7)) << 8], ['toggle', 'drsrs[1]', 0], ['toggle', 'sctlr', 17], ['xor', 'dracrs[0]', 3 << 8]]
+        else:
+            cands += [['xor', 'dacr', rng.choice((1, 2, 3)) << (2 * rng.randrange(16))], ['toggle', 'sctlr', 28], ['toggle', 'sctlr', 29], ['xor', 'fcseidr', 1 << 25]]
+        if self.cfg.get('have_security_ext', True):
+            cands += [['toggle', 'scr', rng.randrange(1, 6)], ['xor', 'mvbar', 0x40]]
+        if self.cfg.get('have_virt_ext'):
+            cands += [['toggle', 'hcr', rng.choice((27, 13, 14, 19, 20, 3, 4, 5))], ['xor', 'hstr', rng.getrandbits(16)], ['xor', 'hvbar', 0x40]]
+        return rng.choice(cands)
 
     def it_then(self, cond, instrs):
         return [(enc('IT_T1', f=cond, m=8), False, None)] + instrs
@@ -360,6 +393,8 @@ class Asm:
             return self.one((nm + '_A1', {}), (nm + '_T1', {}), False)
         if kind == 'inject':
             return [('INJECT', None, rng.choice(INJECT[:2]))]
+        if kind == 'embedder':
+            return [('INJECT', None, self.embedder_op())]
         raise KeyError(kind)
 
 
@@ -367,7 +402,7 @@ VIEWS = ('ge', 'nzcv', 'it', 'e', 'bank')
 AIMED = {'ge': ('msr_sys', 'msr_sys', 'msr_app', 'ge_setter', 'return', 'msr_imm'), 'nzcv': ('flag_setter', 'msr_sys', 'msr_app', 'return', 'msr_imm'),
          'it': ('return', 'return', 'svc', 'udf', 'inject', 'abort'), 'e': ('setend', 'msr_sys', 'return', 'svc', 'inject'),
          'bank': ('cps', 'msr_sys', 'return', 'svc', 'inject', 'udf')}
-ROUTES = ('msr_app', 'msr_sys', 'msr_sys', 'msr_imm', 'ge_setter', 'flag_setter', 'setend', 'cps', 'svc', 'udf', 'abort', 'return', 'return', 'inject', 'wfx', 'cp')
+ROUTES = ('msr_app', 'msr_sys', 'msr_sys', 'msr_imm', 'ge_setter', 'flag_setter', 'setend', 'cps', 'svc', 'udf', 'abort', 'return', 'return', 'inject', 'wfx', 'cp', 'embedder', 'embedder')
 
 
 def shard_history(plan_ref, seed, examples):
@@ -460,14 +495,19 @@ def shard_history(plan_ref, seed, examples):
         elif scen == 'monitor':
             hooked = rng.random() < 0.5
             ldx = rng.choice(('LDREX', 'LDREX', 'LDREXB', 'LDREXH'))
-            prog += asm.one((ldx + '_A1', dict(n=6, t=lo(rng))), (ldx + '_T1', dict(n=6, t=lo(rng), **({'i': rng.choice((0, 0, 1))} if ldx == 'LDREX' else {}))))
+            prog += asm.one((ldx + '_A1', dict(n=6, t=lo(rng))), (ldx + '_T1', dict(n=6, t=lo(rng), **({'i': 0} if ldx == 'LDREX' else {}))))
             for _ in range(rng.randrange(0, 3)):
                 prog += X() if rng.random() < 0.5 else asm.pool()
             t = lo(rng)
             prog += asm.one(('STR_imm_A1', dict(P=1, U=1, W=0, n=6, t=t, i=rng.choice((4, 1, 2, 12, 0)))), ('STR_imm_T1', dict(i=rng.choice((1, 3, 0)), n=6, t=t)), False)
             prog += X()
             dd = (t + 1 + rng.randrange(4)) % 6
-            prog += asm.one(('STREX_A1', dict(n=6, d=dd, t=t)), ('STREX_T1', dict(n=6, t=t, d=dd, i=rng.choice((0, 0, 1)))))
+            prog += asm.one(('STREX_A1', dict(n=6, d=dd, t=t)), ('STREX_T1', dict(n=6, t=t, d=dd, i=0)))
+            if rng.random() < 0.6:
+                # the translation regime changes behind the store-exclusive (which fails on the stock flavour and mostly here): the next plain store to
+                # the same address is translated and checked on its own
+                prog += [('INJECT', None, asm.translation_op() if rng.random() < 0.8 else asm.embedder_op())]
+                prog += asm.one(('STR_imm_A1', dict(P=1, U=1, W=0, n=6, t=t, i=0)), ('STR_imm_T1', dict(i=0, n=6, t=t)), False)
             prog += asm.reader('e')
         elif scen == 'trap':
             # an instruction that is trapped / takes an exception, then whatever the handler holds, then the program again
@@ -481,6 +521,32 @@ def shard_history(plan_ref, seed, examples):
                 prog += asm.route('return')
                 for _r in range(rng.randrange(1, 4)):
                     prog += X() if rng.random() < 0.4 else asm.reader(VIEWS[rng.randrange(len(VIEWS))])
+        elif scen == 'embedder':
+            # exceptions, transfers and the plan's instruction around things the embedder does through the Python API: a system register written between
+            # two exceptions (vector base, high vectors, endianness / instruction set of handlers, MPU region attributes, domain access ...), the register
+            # file saved and restored (replaced by a deep copy of itself), an asynchronous abort delivered between two instructions
+            for _ in range(rng.randrange(2, 4)):
+                prog += X() if rng.random() < 0.6 else asm.pool()
+                if rng.random() < 0.35:
+                    prog += [('INJECT', None, rng.choice(('take_data_abort', 'take_data_abort', 'swap_registers', INJECT[0], INJECT[1])))]      # right behind the plan's instruction
+                    prog += asm.reader('bank') + asm.pool()
+                prog += asm.route(rng.choice(('svc', 'udf', 'abort', 'inject', 'svc')))
+                prog += asm.route('embedder')
+                if rng.random() < 0.5:
+                    prog += asm.one(('STR_imm_A1', dict(P=1, U=1, W=0, n=6, t=lo(rng), i=4)), ('STR_imm_T1', dict(i=1, n=6, t=lo(rng))), False)
+                prog += asm.reader(VIEWS[rng.randrange(len(VIEWS))])
+            prog += X()
+        elif scen == 'notimpl':
+            # an instruction that ends in the documented NotImplementedError of a mock hook (hint / barrier on the stock flavour) inside or outside an IT block;
+            # the embedder catches the error and delivers an interrupt; the handler's first instruction must be decoded with the state the entry left
+            hooked = False
+            if thumb and rng.random() < 0.7:
+                prog += [(enc('IT_T1', f=rng.randrange(14), m=rng.choice((8, 4, 12, 6))), False, None)]
+            prog += asm.one((rng.choice(('YIELD_A1', 'SEV_A1', 'DSB_A1', 'ISB_A1')), {}), (rng.choice(('YIELD_T1', 'SEV_T1')), {}), False)
+            prog += [('INJECT', None, rng.choice(INJECT[:2]))]
+            for _ in range(rng.randrange(1, 4)):
+                prog += asm.reader(rng.choice(('it', 'nzcv', 'ge')))
+            prog += X()
         elif scen == 'interwork':
             if rng.random() < 0.6:
                 prog += [(enc('IT_T1', f=rng.randrange(14), m=8), False, None)]
@@ -579,6 +645,27 @@ def shard_history(plan_ref, seed, examples):
             case['poke'].append([a, b.hex()])
         if scen == 'mix' and rng.random() < 0.35:
             inject = {str(rng.randrange(1, max(2, len(prog)))): rng.choice(INJECT) for _ in range(rng.randrange(1, 3))}
+        if scen in ('mix', 'rwr', 'residue') and rng.random() < 0.15:
+            inject.setdefault(str(rng.randrange(1, max(2, len(prog)))), 'swap_registers')
+        if scen in ('monitor', 'embedder') and pmsa and not (st_['sctlr'] & 1) and rng.random() < 0.7:
+            # MPU on: everything read/write, region 1 over the data device (its attributes are what the embedder changes)
+            nreg = gen.DEFAULT_MPU_REGIONS
+            for r_ in range(nreg):
+                st_['drsrs[%d]' % r_] = 0
+            st_['mpuir'] = nreg << 8
+            st_['drsrs[0]'], st_['drbars[0]'], st_['dracrs[0]'] = (31 << 1) | 1, 0, 3 << 8
+            st_['drsrs[1]'], st_['drbars[1]'], st_['dracrs[1]'] = (8 << 1) | 1, gen.DATA[0] & ~0x1FF, 3 << 8
+            st_['sctlr'] |= 1
+        # system-register writes by the embedder: resolve the relative markers against the values the registers have in this case (a later write to the
+        # same register builds on the earlier one)
+        cur = {}
+        for k_ in sorted(inject, key=int):
+            op = inject[k_]
+            if isinstance(op, list) and op[0] in ('toggle', 'xor'):
+                base_v = cur.get(op[1], st_.get(op[1], 0))
+                nv = base_v ^ ((1 << op[2]) if op[0] == 'toggle' else op[2])
+                cur[op[1]] = nv
+                inject[k_] = ['set', op[1], nv & M32] if op[1] in st_ or op[1] in ('vbar', 'mvbar', 'hvbar', 'cpacr', 'dacr', 'fcseidr', 'hstr', 'hcr', 'scr') else 'swap_registers'
         if inject:
             case['inject'] = inject
         res = diff.run(case)
